@@ -99,6 +99,14 @@ def run(tier, seed):
     rep.add('RESET.reaches', 'decay0_generator', where(rs), 'every path of reset() passes through _reset_()', ok,
             None if ok else ['a return of reset() is reachable without calling _reset_()'])
     generator_reset_complete(rep, prog)
+    # the clean-up itself cannot throw on a precondition of what it calls
+    roots_ = list(prog.fns(GEN + '::_reset_')) + list(prog.fns(GEN + '::reset')) + \
+        [f for (qn, _), f in prog.functions.items() if qn.startswith(GEN + '::pimpl_type::~')]
+    nnt = typestate.nothrow_calls(rep, prog, roots_, 'RESET.nothrow',
+                                  'in reset()/_reset_() and the destructor of the private implementation, every call of a method that begins with '
+                                  '`if (!is_initialized()) throw` (or the like) is dominated by the test that excludes that state: a failed or '
+                                  'partial initialisation can always be cleaned up')
+    rep.floor('RESET.nothrow', nnt, 1)
     typestate.reset_complete(rep, prog, 'bxdecay0::bbpars', 'bxdecay0::bbpars::reset', 'RESET.complete')
     # dbd_gA and MDL operation
     for cls, reset in (('bxdecay0::dbd_gA', 'bxdecay0::dbd_gA::reset'),
